@@ -14,7 +14,7 @@ RULE = ('n forks (2-4) consumed in threads with seeded per-element pauses (one d
         'source length {0,1,2,window,3*window}, source raising at every position (None, 0..len), every statement of Fork.__next__ under seeded '
         'delay injection with targeted sites (after the `head.value is None` test; while holding the source lock; before the window put); '
         'non-trivial = >=2 forks, length > window or a source failure, and the fuzzer injected at >=1 site; distinct = distinct '
-        '(forks, window, length, failure position, interleaving signature)')
+        '(forks, window, length, failure position, interleaving signature); stall cases: one fork or the source silent for 0.09-0.25 s / ~1 s at a random position (the fork step polls the source lock every 0.1 s), with delay sites at exception-handler entries')
 ASSUMPTIONS = ['verdict on the look-ahead bound uses received_i + (1 if fork i is inside next()) so that the consumer-side counting lag can never raise an alarm; '
                'the strict count is reported as evidence (max_gap_strict)',
                'bounded progress: all fork threads finish within 20 s or the stacks of all threads are sampled (3 x 1 s) for stability']
